@@ -326,9 +326,12 @@ func c09Check(c gridCase, o gridObs, arrFirst bool) (string, string) {
 	return "", ""
 }
 
-// c09AfterLogout: the peer of a session that is no longer logged on falls silent.  Two silent
-// periods after the last arrival the disconnect event is raised (each expiry is noticed within one
-// polling step), not earlier, exactly once, and the handler is stopped at that instant.
+// c09AfterLogout: the peer of a session that is no longer logged on falls silent.  At the latest two
+// silent periods after the last arrival (each expiry is noticed within one polling step) the
+// disconnect event is raised - not before one full period of silence has passed - exactly once, and
+// the handler is stopped at that instant.  (Whether such a peer is probed first, and whether the
+// session gives it one period or two, the statement leaves open; it does not leave open that the
+// connection is eventually given up.)
 func c09AfterLogout(c gridCase, o gridObs) (string, string) {
 	T := time.Duration(c.N+tol(c.N)) * time.Second
 	win := T / 10
@@ -338,7 +341,7 @@ func c09AfterLogout(c gridCase, o gridObs) (string, string) {
 			last = a
 		}
 	}
-	lo, hi := last+2*T, last+2*T+2*win
+	lo, hi := last+T, last+2*T+2*win
 	if o.discAt < 0 {
 		if o.end > hi {
 			return "after-logout:silent-peer-never-disconnected", fmt.Sprintf("%s: last arrival %v, disconnect was due in [%v,%v], horizon %v", c.After, last, lo, hi, o.end)
